@@ -15,7 +15,9 @@ fn budget(t: Tier) -> u64 {
 }
 
 pub fn random_forgery(rng: &mut Rng, n_prev: u32) -> Forgery {
-    match rng.below(27) {
+    match rng.below(30) {
+        27 => Forgery::LooseRoot,
+        28 | 29 => Forgery::ShadowTag { tag: rng.pick(&["ROOT", "MIDP", "RADI", "PUBK", "MINT", "MAXT"]).to_string(), seed: rng.next_u64() },
         23 => Forgery::ResignedRootPrefixKept(*rng.pick(&[1u32, 4, 8, 16, 31, 32, 63])),
         24 => Forgery::ResignedFillRoot(*rng.pick(&[0u8, 0xff, 0x5a])),
         25 | 26 => Forgery::Fill { region: rng.pick(&["SIG", "CERT.SIG", "DELE.PUBK", "SREP.ROOT", "PATH", "NONC", "INDX"]).to_string(), byte: *rng.pick(&[0u8, 0, 0xff]) },
